@@ -9,6 +9,7 @@ pub mod open;
 pub mod pool;
 pub mod dest;
 pub mod socks;
+pub mod http;
 
 pub fn run(args: &Args, log: &Log) -> Result<(), String> {
     match args.driver.as_str() {
@@ -22,6 +23,7 @@ pub fn run(args: &Args, log: &Log) -> Result<(), String> {
         "pool" => pool::run(args, log),
         "dest" => dest::run(args, log),
         "socks" => socks::run(args, log),
+        "http" => http::run(args, log),
         d => Err(format!("unknown driver {d}")),
     }
 }
